@@ -13,6 +13,7 @@ from __future__ import annotations
 
 import asyncio
 import contextlib
+import errno
 import json
 import os
 import shutil
@@ -21,6 +22,12 @@ import sqlite3
 from path import Path
 
 TIMEOUT = 30.0
+INOTIFY_BUDGET = [90.0]     # seconds this process may spend waiting for a free inotify instance
+
+
+class InotifyUnavailable(Exception):
+    pass
+
 SENTINEL = "zz-c14-sentinel"
 
 
@@ -109,7 +116,7 @@ async def build_project(st: Stack, spec: dict):
     """Materialise `spec` on disk (cwd = project root) and in the workflow.
 
     spec = {"dirs": [..], "static": {path: content|None}, "extra": {path: content},
-            "steps": [{"cmd", "inp": [..], "out": {path: content}, "state": "SUCCEEDED"|"FAILED"|"PENDING"}],
+            "steps": [{"cmd", "inp": [..], "out": {path: content}, "state": "SUCCEEDED"|"STALE"|"FAILED"|"PENDING"}],
             "globs": [{"step": cmd or "./plan.py", "pattern": str}], "plan_state": "SUCCEEDED"|"PENDING"}
     """
     from stepup.core.enums import HashUpdateCause, Need, StepState
@@ -148,7 +155,7 @@ async def build_project(st: Stack, spec: dict):
             if state == "PENDING":
                 continue
             step.set_state(StepState.RUNNING)
-            if state == "SUCCEEDED":
+            if state in ("SUCCEEDED", "STALE"):
                 outs = {}
                 for p, c in s.get("out", {}).items():
                     os.makedirs(os.path.dirname(p) or ".", exist_ok=True)
@@ -156,6 +163,9 @@ async def build_project(st: Stack, spec: dict):
                     outs[p] = real_hash(p)
                 wf.update_file_hashes(outs, cause=HashUpdateCause.SUCCEEDED)
                 step.mark_completed(sh, False)
+                if state == "STALE":
+                    # succeeded earlier, made pending again since: outputs OUTDATED
+                    wf.mark_step_pending(step)
             else:
                 step.mark_completed(None, False)
         if spec.get("plan_state", "SUCCEEDED") == "SUCCEEDED":
@@ -287,7 +297,20 @@ async def wrapper_ctx(dir_queue, synthetic=False):
     """The real AsyncInotifyWrapper with its inotify object tapped (real) or replaced (synthetic)."""
     from stepup.core.watcher import AsyncInotifyWrapper
     wrapper = AsyncInotifyWrapper(dir_queue=dir_queue)
-    await wrapper.__aenter__()
+    # inotify instances are a per-user resource (fs.inotify.max_user_instances, 128 here) shared with
+    # every other check running on this box: back off and retry, then give up with InotifyUnavailable
+    # (the caller counts the history as skipped; this is resource acquisition, not synchronisation).
+    for attempt in range(40):
+        try:
+            await wrapper.__aenter__()
+            break
+        except OSError as e:
+            if e.errno not in (errno.EMFILE, errno.ENFILE, errno.ENOSPC, errno.ENOMEM):
+                raise
+            if attempt == 39 or INOTIFY_BUDGET[0] <= 0:
+                raise InotifyUnavailable(str(e)) from e
+            INOTIFY_BUDGET[0] -= 0.5
+            await asyncio.sleep(0.5)
     # The loops were created but have not run yet (no suspension point since create_task).
     if synthetic:
         wrapper.inotify.close()
@@ -326,7 +349,19 @@ async def drain_real(wrapper, counter=[0]):
                     return
                 continue
             items.append((change.name, str(path)))
-    await asyncio.wait_for(_wait(), TIMEOUT)
+    waiter = asyncio.create_task(_wait())
+    stopper = asyncio.create_task(wrapper.stop_event.wait())
+    try:
+        done, _ = await asyncio.wait([waiter, stopper], timeout=TIMEOUT, return_when=asyncio.FIRST_COMPLETED)
+        if waiter not in done:
+            for t in (wrapper.change_loop_task, wrapper.dir_loop_task):
+                if t is not None and t.done() and not t.cancelled() and t.exception() is not None:
+                    raise t.exception()
+            raise TimeoutError("no sentinel item from change_loop")
+        waiter.result()
+    finally:
+        waiter.cancel()
+        stopper.cancel()
     return items
 
 
@@ -365,21 +400,33 @@ async def feed_changes(st: Stack, items, during_build=False):
     return sorted(st.watcher.updated), sorted(st.watcher.deleted)
 
 
-async def watch_commit(st: Stack, queued=()):
-    """start_build_phase's first transaction + the commit part of Watcher.run_once.
-
-    `queued` items are put on the change queue and hence recorded with during_build=True, exactly
-    as run_once does for what was queued while the build phase was running.
+async def watch_commit(st: Stack, queued=(), items=()):
+    """One real watch phase: Watcher.run_once runs as a task; `queued` items are on the change queue
+    before it starts (recorded with during_build=True by its drain loop); once it reports
+    busy_watching the `items` are queued (recorded by its watch loop); then the body of
+    DirectorHandler.start_build_phase: FAILED steps pending, end_watching, wait for the commit.
     """
     from stepup.core.enums import Change, StepState
-    async with st.db:
-        for step in st.wf.steps(StepState.FAILED):
-            st.wf.mark_step_pending(step)
+    w = st.watcher
     q = asyncio.Queue()
     for name, path in queued:
         q.put_nowait((Change[name], Path(path)))
-    st.watcher.end_watching.set()
-    await asyncio.wait_for(st.watcher.run_once(q), TIMEOUT)
+    w.end_watching.clear()
+    task = asyncio.create_task(w.run_once(q))
+    try:
+        await asyncio.wait_for(w.busy_watching.wait(), TIMEOUT)
+        for name, path in items:
+            q.put_nowait((Change[name], Path(path)))
+        async with st.db:
+            for step in st.wf.steps(StepState.FAILED):
+                st.wf.mark_step_pending(step)
+        w.end_watching.set()
+        await asyncio.wait_for(task, TIMEOUT)
+    finally:
+        if not task.done():
+            task.cancel()
+    if not q.empty():
+        raise RuntimeError("harness: the watcher left change items unprocessed")
 
 
 async def startup_rescan(st: Stack):
